@@ -216,11 +216,15 @@ def sast_case(draw, cid, fixtures):
         "empty_doc": draw(st.integers(0, 9)) == 0,
         # the reported findings arrive in two result files of the same tool (a paginated export)
         "split": draw(st.booleans()),
+        # the subset run is made with --verbose (the calibration run is not)
+        "verbose": draw(st.integers(0, 3)) == 0,
+        # Sonar only: the component carries a project key, possibly one that contains a colon itself
+        "sonar_key": draw(st.sampled_from([None, None, "shop", "com.acme:shop", "org:team:svc"])),
     }
 
 
-def run_doc(cid, rd, root: Path):
-    return engine.run_batch([cid], [({"codemod": cid}, rd)], keep_root=root)
+def run_doc(cid, rd, root: Path, extra_argv=()):
+    return engine.run_batch([cid], [({"codemod": cid}, rd)], keep_root=root, extra_argv=extra_argv)
 
 
 def eval_case(case, stats=None, all_subsets=False):
@@ -303,11 +307,13 @@ def eval_case(case, stats=None, all_subsets=False):
         split = bool(case.get("split")) and rd_s.get("results") and progspace.doc_format(rd_s["results"]) != "sarif"
         if split:
             rd_s["split_results"] = 2
+        if case.get("sonar_key"):
+            rd_s["sonar_project_key"] = case["sonar_key"]
         with runner.scratch("c06s") as rs:
-            obs_s = run_doc(cid, rd_s, Path(rs))
+            obs_s = run_doc(cid, rd_s, Path(rs), ["--verbose"] if case.get("verbose") else [])
         key = [cid, core.sha(f.before), sorted(S), decoys]
         nontriv = (0 < len(S) < len(acted)) or bool(decoys)
-        st_.case(key + (["split"] if split else []), nontriv, labels + [f"reported={len(S)}/{len(acted)}"] + (["two-result-files"] if split else []) + ["decoy:" + d for d in decoys] + (["empty-document"] if not S and not decoys else []),
+        st_.case(key + (["split"] if split else []), nontriv, labels + [f"reported={len(S)}/{len(acted)}"] + (["two-result-files"] if split else []) + (["verbose"] if case.get("verbose") else []) + (["sonar-key:" + case["sonar_key"]] if case.get("sonar_key") and cid.startswith("sonar") else []) + ["decoy:" + d for d in decoys] + (["empty-document"] if not S and not decoys else []),
                  sample={"codemod": cid, "sites": len(acted), "reported": sorted(S), "decoys": decoys, "document": rd_s["results"], "source": before[:500]})
         det = {"codemod": cid, "reported_parts": sorted(S), "acted_in_calibration": acted, "decoys": decoys, "part_ranges": ranges, "before": before, "document": rd_s["results"]}
         if obs_s.res.exit != 0 or obs_s.res.report is None:
@@ -321,7 +327,7 @@ def eval_case(case, stats=None, all_subsets=False):
         outside = sorted(l for l in ch_s if part_of(l, ranges) is None)
         extra = sorted(got_parts - S)
         missing = sorted((S & set(acted)) - got_parts)
-        vf = feats + ["decoy:" + d for d in decoys] + (["two-result-files"] if split else [])
+        vf = feats + ["decoy:" + d for d in decoys] + (["two-result-files"] if split else []) + (["verbose"] if case.get("verbose") else []) + (["sonar-key"] if case.get("sonar_key") and cid.startswith("sonar") else [])
         if extra:
             st_.violation(cid, "site-without-finding-rewritten", {"case": case}, json.dumps({"unreported_parts_rewritten": extra, **det})[:7000], features=vf)
         if missing:
